@@ -34,6 +34,9 @@ import Norad.Props.C06Histories
 #print axioms Layers.source_renameGlyph_refuses_iff
 #print axioms Layers.source_index_updates_match_model
 #print axioms Layers.model_frame_rules
+#print axioms Layers.source_insertGlyph_eq_model
+#print axioms Layers.insertGlyphBy_glyphs_differs
+#print axioms Layers.source_load_pathset_eq_model
 #print axioms Small.name_predicates_agree
 #print axioms Layers.insert_repairs_index
 #print axioms Layers.sync_insert_of_syncBut
